@@ -331,6 +331,11 @@ func (s *transactionStore) Watch(ctx context.Context, ch chan<- configapi.Transa
 				delete(s.watchers, id)
 			}
 			s.mu.Unlock()
+			// The event pump may already hold this watcher's channel: keep receiving so that it never blocks
+			go func() {
+				for range eventCh {
+				}
+			}()
 		}()
 
 		if options.replay {
@@ -349,9 +354,14 @@ func (s *transactionStore) Watch(ctx context.Context, ch chan<- configapi.Transa
 						close(ch)
 						return
 					}
-					ch <- configapi.TransactionEvent{
+					select {
+					case ch <- configapi.TransactionEvent{
 						Type:        configapi.TransactionEvent_REPLAYED,
 						Transaction: *transaction,
+					}:
+					case <-ctx.Done():
+						close(ch)
+						return
 					}
 				}
 			} else {
@@ -377,9 +387,14 @@ func (s *transactionStore) Watch(ctx context.Context, ch chan<- configapi.Transa
 					transaction := entry.Value
 					transaction.Index = configapi.Index(entry.Index)
 					transaction.Version = uint64(entry.Version)
-					ch <- configapi.TransactionEvent{
+					select {
+					case ch <- configapi.TransactionEvent{
 						Type:        configapi.TransactionEvent_REPLAYED,
 						Transaction: *transaction,
+					}:
+					case <-ctx.Done():
+						close(ch)
+						return
 					}
 				}
 			}
@@ -388,13 +403,14 @@ func (s *transactionStore) Watch(ctx context.Context, ch chan<- configapi.Transa
 		for {
 			select {
 			case event := <-eventCh:
-				ch <- event
+				select {
+				case ch <- event:
+				case <-ctx.Done():
+					close(ch)
+					return
+				}
 			case <-ctx.Done():
 				close(ch)
-				go func() {
-					for range eventCh {
-					}
-				}()
 				return
 			}
 		}
